@@ -24,5 +24,14 @@ CHECK = {
             "shards": {"quick": 16, "thorough": 16},
             "budget_s": {"quick": 45, "thorough": 540},
         },
+        {
+            # glue level: the run mode run() derives from the commands given, through the real run()
+            "name": "c07-modes", "pkg": "internal/app/connectconformance", "rewrite": ["internal/app/connectconformance"],
+            "harness": ["connectconformance/c07_modes_test.go", "connectconformance/c05_test.go", "connectconformance/peersim_test.go",
+                        "connectconformance/c11_test.go", "connectconformance/fakeproc_test.go", "connectconformance/gateutil_test.go"],
+            "test": "^TestVerifC07Modes$", "gomaxprocs": 1,
+            "shards": {"quick": 8, "thorough": 8},
+            "budget_s": {"quick": 60, "thorough": 120},
+        },
     ],
 }
